@@ -17,5 +17,7 @@ WideOnA == [i \in {"w"} |-> "a"]
 BodiesAll  == AllBodies
 BodiesCore == {[kind |-> "honest", of |-> "a", sq |-> "S"], [kind |-> "honest", of |-> "b", sq |-> "S"],
                [kind |-> "honest", of |-> "a", sq |-> "T"], [kind |-> "garbled", of |-> "-", sq |-> "-"]}
+BodiesQuick == {[kind |-> "honest", of |-> "a", sq |-> "S"], [kind |-> "honest", of |-> "b", sq |-> "S"],
+                [kind |-> "garbled", of |-> "-", sq |-> "-"]}
 BodiesTiny == {[kind |-> "honest", of |-> "a", sq |-> "S"], [kind |-> "garbled", of |-> "-", sq |-> "-"]}
 =============================================================================
